@@ -11,7 +11,7 @@ CHECKS["C18"] = dict(
     level_text="TLC exhausts the KV model (5 keys, 2 values) and generates one history per (state, operation) edge plus random walks; "
                "each is run on leveldb (disk, memory) and mock stores and every recorded result is judged by KVTrace.tla",
     level_note="trusted: TLC, the driver's projection (Get of each universe key), JSON/binary value codecs of the driver; bounded key universe",
-    design=[dict(spec="MCKV.tla", cfg="MCKV.cfg", workers=4, timeout=300)],
+    design=[dict(spec="MCKV.tla", cfg="MCKV.cfg", workers=4, timeout=1500)],
     gen=dict(
         quick=[dict(mode="edges", spec="KVGen.tla", cfg="KVGenEdges.cfg", depth=12, max=1200, name="edges"),
                dict(mode="sim", spec="KVGen.tla", cfg="KVGenSim.cfg", depth=14, num=30, max=300, name="walks")],
